@@ -330,3 +330,14 @@ def fx_relink(fx):
     for nm in ("ok_push", "bad_push"):
         n += sync.push_relink(c, Fn(fx.raw("relink::List::" + nm)), fx=fx)
     return n == 2 and _fires(c, "List::bad_push") and not _fires(c, "List::ok_push")
+
+
+def fx_lru(fx):
+    from rules import lru
+    c = _ctx()
+    for nm in ("ok_get", "bad_get_notouch", "bad_get_unlocked"):
+        lru.touch(c, fx, "lrufx::Map::" + nm, "lrufx::Node::value")
+    c2 = _ctx()
+    n = lru.list_ops_under_index_lock(c2, fx, "src/lib.rs", "lrufx::Map", "Map::hash_map")
+    return (_fires(c, "Map::bad_get_notouch") and not _fires(c, "Map::ok_get") and not _fires(c, "Map::bad_get_unlocked")
+            and n == 2 and _fires(c2, "Map::bad_get_unlocked") and not _fires(c2, "Map::ok_get"))
